@@ -28,6 +28,7 @@ def run(ctx):
     ctx.call(GR.dependency_lookup, "6")
     ctx.call(GR.index_consistency, "5")
     ctx.call(GR.name_forms, "7n")
+    ctx.call(GR.node_objects, "8")
 
 
 NODE = "cartgraph/node.py"
